@@ -1,5 +1,5 @@
-//! C10: CArc / CArcSome driven by op scripts over a pool of handles.
-use crate::tok::*;
+// C10: CArc / CArcSome driven by op scripts over a pool of handles.  (included twice by main.rs: payload Tok, and the over-aligned TokA64)
+use crate::tok::{take_drops, Elem};
 use crate::{Mon, Rows};
 use cglue::arc::{CArc, CArcSome};
 use cglue::trait_group::{c_void, Opaquable};
